@@ -194,5 +194,60 @@ def check(run, model, tier):
                          'acquire in __set__ is not conditional on the hand-over flag', node=a.ast, nontrivial=True)
     if flag is None:
         raise AnalysisError('hand-over flag not identified in __set__')
+    # ---- an augmented assignment is only atomic if its read half is recognised as one: the classifier __get__ branches on, evaluated on one line per
+    # augmented-assignment operator (the other direction - plain reads taken for updates - is C28's)
+    run.rule('LOCKSET.update-recognised', 'the classifier that makes __get__ keep the lock answers true for each of the 13 augmented-assignment operators')
+    import re as _re
+    from sa import pureeval
+    from sa.util import strip_not as _sn
+    gg = cfg_of(get)
+    classifier = None
+    for t in gg.nodes:
+        if t.kind != 'test':
+            continue
+        inner, pol = _sn(t.ast)
+        if isinstance(inner, ast.Name):
+            from sa.util import local_defs as _ld
+            ds_ = [d_ for d_ in _ld(get.node).get(inner.id, []) if isinstance(d_, ast.AST)]
+            if len(ds_) == 1 and isinstance(ds_[0], ast.Call):
+                inner = ds_[0]
+        if isinstance(inner, ast.Call) and isinstance(inner.func, ast.Attribute) and dotted(inner.func.value) == get.params[0] and inner.func.attr in cls.methods:
+            rels = lock_nodes(gg, get.params[0], lock, 'release')
+            from sa.util import guarded_by_edge as _gbe
+            if rels and (all(_gbe(gg, r, t, 'true') for r in rels) or all(_gbe(gg, r, t, 'false') for r in rels)):
+                classifier = cls.methods[inner.func.attr]
+    if classifier is None:
+        raise AnalysisError('__get__: no classifier test decides the release of the lock')
+    AUG = ['+=', '-=', '*=', '/=', '//=', '%=', '@=', '&=', '|=', '^=', '>>=', '<<=', '**=']
+    re_obj = pureeval.Obj(search=_re.search, match=_re.match, fullmatch=_re.fullmatch, findall=_re.findall, compile=_re.compile)
+    cmeths = {k_: f_.node for k_, f_ in cls.methods.items() if not (k_.startswith('__') and k_.endswith('__'))}
+    try:
+        bad = None
+        for tok in AUG:
+            try:
+                got = bool(pureeval.call(classifier.node, [pureeval.Obj(), '    obj.x %s 1' % tok], globals_={'re': re_obj, 'None': None}, strict_locals=True, methods=cmeths))
+            except pureeval.Raised as ex_:
+                got = 'raises ' + ex_.what
+            if got is not True and bad is None:
+                bad = (tok, got)
+        run.inst('LOCKSET.update-recognised', classifier, '%s(line) for the 13 augmented-assignment operators' % classifier.name, bad is None,
+                 '' if bad is None else ('%s(\'obj.x %s 1\') answers %r: __get__ gives the lock back after the read half of `obj.x %s 1`, another thread can update the attribute before '
+                                         'the write half, and that update is lost' % (classifier.name, bad[0], bad[1], bad[0])), obligation=True)
+    except AnalysisError as ex_:
+        run.note('the line classifier is outside the evaluator\'s fragment (%s): its table is decided under C28' % ex_)
+    # ---- acquire really waits: a non-blocking or timed acquire whose answer is not looked at lets the thread go on without the lock
+    for f in (get, st):
+        for n in walk_shallow(f.node):
+            if isinstance(n, ast.Call) and isinstance(n.func, ast.Attribute) and n.func.attr == 'acquire' and dotted(n.func.value) == '%s.%s' % (f.params[0], lock):
+                nonblocking = any(k.arg == 'blocking' and isinstance(k.value, ast.Constant) and not k.value.value for k in n.keywords) or \
+                    (n.args and isinstance(n.args[0], ast.Constant) and not n.args[0].value) or \
+                    any(k.arg == 'timeout' and not (isinstance(k.value, ast.Constant) and k.value.value in (-1, None)) for k in n.keywords) or len(n.args) > 1
+                unknown = any(k.arg == 'blocking' and not isinstance(k.value, ast.Constant) for k in n.keywords) or (n.args and not isinstance(n.args[0], ast.Constant))
+                if unknown:
+                    raise AnalysisError('%s: acquire with a computed blocking argument' % f.qualname)
+                run.inst('LOCKSET.balance', f, 'acquire waits for the lock: ' + norm(n), not nonblocking,
+                         '' if not nonblocking else ('%s takes the lock with %s and does not look at the answer: when another thread holds the lock the call returns at once, the access goes on '
+                                                     'outside the critical section and the matching release() raises RuntimeError (or releases the other thread\'s hold)' % (f.qualname, norm(n))),
+                         node=n, obligation=True)
     run.assume('RLock semantics; attribute loads/stores are atomic under the GIL')
     run.assume('an augmented assignment obj.x += v compiles to __get__ followed by __set__ on the same thread')
